@@ -12,6 +12,7 @@ func init() {
 	vhRegister("VH_C18_Contains", func(p []int) { VH_C18_Contains(p[0], p[1], p[2]) })
 	vhRegister("VH_C18_Equal", func(p []int) { VH_C18_Equal(p[0], p[1], p[2]) })
 	vhRegister("VH_C18_AddSeq", func(p []int) { VH_C18_AddSeq(p[0]) })
+	vhRegister("VH_C18_SIDOrder", func(p []int) { VH_C18_SIDOrder(p[0]) })
 	vhRegister("VH_C18_AddTwice", func(p []int) { VH_C18_AddTwice(p[0], p[1]) })
 }
 
@@ -329,4 +330,47 @@ func VH_C18_AddTwice(k, spare int) {
 		}
 	}
 	vhCover("addtwice")
+}
+
+// VH_C18_SIDOrder: the canonical form lists server UUIDs in ascending byte order. n UUIDs whose
+// bytes 0, 7, 8 and 15 are free (the others equal), pairwise different: SIDs() returns them in
+// ascending lexicographic order (an independent byte-by-byte comparison), String() starts with the
+// smallest, and the text parses back to an equal set.
+func VH_C18_SIDOrder(n int) {
+	sids := make([]SID, n)
+	set := Mysql56GTIDSet{}
+	for i := range sids {
+		for j := range sids[i] {
+			sids[i][j] = 0x40
+		}
+		for _, j := range []int{0, 7, 8, 15} {
+			sids[i][j] = vhU8()
+		}
+		for k := 0; k < i; k++ {
+			vhAssume(sids[k] != sids[i])
+		}
+		set[sids[i]] = []interval{{int64(i + 1), int64(i + 1)}}
+	}
+	less := func(a, b SID) bool {
+		for j := 0; j < 16; j++ {
+			if a[j] != b[j] {
+				return a[j] < b[j]
+			}
+		}
+		return false
+	}
+	got := set.SIDs()
+	vhAssert(len(got) == n, "every UUID listed once")
+	for i := 1; i < len(got); i++ {
+		vhAssert(less(got[i-1], got[i]), "UUIDs in ascending byte order")
+	}
+	txt := set.String()
+	first := got[0].String()
+	vhAssert(len(txt) >= len(first), "text starts with a UUID")
+	for i := 0; i < len(first); i++ {
+		vhAssert(txt[i] == first[i], "the text lists the smallest UUID first")
+	}
+	back, err := parseMysql56GTIDSet(txt)
+	vhAssert(err == nil && set.Equal(back) && back.Equal(set), "canonical text parses back to an equal set")
+	vhCover("sid-order")
 }
